@@ -55,6 +55,12 @@ func run(c *rig.Ctx) {
 		default:
 			p = prog.Sound(r)
 		}
+		if i%4 == 3 {
+			// the guest sits in STOP mode for most of the time (no key is pressed): every
+			// component but the CPU still advances once per machine cycle
+			p = prog.StopLoop(r)
+			c.Count("twin_stop_programs", 1)
+		}
 		frames := 3 + r.Intn(4)
 		if ok, _ := emu.Screen(emu.Scenario{ROM: p.ROM, Frames: frames}); !ok {
 			c.Count("twin_programs_skipped", 1)
@@ -336,6 +342,7 @@ func run(c *rig.Ctx) {
 		}
 		wd := &byteWatchdog{requested: &cancelled, closeByByte: mode == 0 && lcdOff, win: glfw.XCurrent, polls: &glfw.PollCalls, n: int64(n), perFrame: perFrame}
 		gb := gameboy.New(gameboy.Config{RomFilename: path, DisableAudioOutput: !audio, SerialWriter: wd})
+		counter0 := gb.XTimer().XCounter()
 		// the context may be over before Run is even called: Run must still return at once
 		// (at most one frame) and release what New acquired
 		pre := mode == 1 && (i/3)%4 == 3
@@ -390,6 +397,15 @@ func run(c *rig.Ctx) {
 			}
 			c.Count("stop_cancel_other_goroutine_cases", 1)
 			c.Count(fmt.Sprintf("frames_after_cancel_%d", polls-at), 1)
+		}
+		// whole frames only: the divider (which these programs never write) has advanced by
+		// exactly 17 556 machine cycles per frame rendered, however the run was stopped
+		if !lcdOff {
+			want := uint16(uint32(counter0) + uint32(polls%16384)*70224)
+			if got := gb.XTimer().XCounter(); got != want {
+				c.Violate("run-ends-in-mid-frame", fmt.Sprintf("%s: %d frames were rendered, the divider counter stands at %04X, %d whole frames from its start value %04X give %04X", descr, polls, got, polls, counter0, want), nil)
+			}
+			c.Count("stop_cases_whole_frames_checked", 1)
 		}
 		if glfw.TermCalls != 1 {
 			c.Violate("display-not-released-once", fmt.Sprintf("%s: glfw.Terminate called %d times", descr, glfw.TermCalls), nil)
